@@ -69,7 +69,7 @@ def run(tier, replay=None):
         raise vlib.MachineryError("hostile driver never reached %s" % missing)
 
     # state-dependent panics: boundary amounts in block histories + the huge-stake scenario
-    traces, sdirs, dst = appcommon.gen_traces(tier, ["huge_stake", "fee_edges"], [dict(n=4 if quick else 40, blocks=15 if quick else 30, boundary=True)])
+    traces, sdirs, dst = appcommon.gen_traces(tier, ["huge_stake", "fee_edges", "tiny_stakes_slashed", "tiny_voter_slashed"], [dict(n=4 if quick else 40, blocks=15 if quick else 30, boundary=True)])
     st = appcommon.collect(v, PROP, traces, sdirs)
     cov = {
         "evaluations": total["events"] + st["events"],
